@@ -64,6 +64,7 @@ class DimChecker:
         self.errors: List[DimError] = []
         self.checked: List[str] = []
         self.env: Dict[str, object] = {}
+        self.overridden: set = set()  # seeded names that the function itself binds to a value of known dimension: the binding wins over the declaration
 
     def err(self, node, msg):
         self.errors.append(DimError(self.fi, node, msg))
@@ -83,7 +84,7 @@ class DimChecker:
 
     def ev(self, e) -> object:
         txt = norm(e)
-        if txt in self.seeds:
+        if txt in self.seeds and txt not in self.overridden:
             return self.seeds[txt]
         for suf, d in self.seeds.items():
             if suf.startswith("*") and txt.endswith(suf[1:]):
@@ -201,6 +202,8 @@ class DimChecker:
     def bind(self, t, d, node):
         if isinstance(t, ast.Name):
             self.env[t.id] = d
+            if t.id in self.seeds and d != UNKNOWN and d is not ANY and not (isinstance(d, tuple) and d and isinstance(d[0], tuple)):
+                self.overridden.add(t.id)
         elif isinstance(t, (ast.Tuple, ast.List)) and isinstance(d, tuple) and len(d) == len(t.elts) and (not d or isinstance(d[0], (tuple, type(None), str))):
             for x, dd in zip(t.elts, d):
                 self.bind(x, dd, node)
